@@ -395,7 +395,7 @@ func (s *BlockSpec) decode(content *hcl.BodyContent, blockLabels []blockLabel, c
 	}
 	val, _, childDiags := decode(childBlock.Body, labelsForBlock(childBlock), ctx, s.Nested, false)
 	diags = append(diags, childDiags...)
-	return val, diags
+	return prepareBodyVal(val, childBlock.Body), diags
 }
 
 func (s *BlockSpec) impliedType() cty.Type {
@@ -1279,7 +1279,7 @@ func (s *BlockAttrsSpec) decode(content *hcl.BodyContent, blockLabels []blockLab
 	diags = append(diags, attrDiags...)
 
 	if len(attrs) == 0 {
-		return cty.MapValEmpty(s.ElementType), diags
+		return prepareBodyVal(cty.MapValEmpty(s.ElementType), block.Body), diags
 	}
 
 	vals := make(map[string]cty.Value, len(attrs))
@@ -1314,7 +1314,7 @@ func (s *BlockAttrsSpec) decode(content *hcl.BodyContent, blockLabels []blockLab
 		vals[name] = attrVal
 	}
 
-	return cty.MapVal(vals), diags
+	return prepareBodyVal(cty.MapVal(vals), block.Body), diags
 }
 
 func (s *BlockAttrsSpec) impliedType() cty.Type {
